@@ -72,7 +72,7 @@ def execute(sc: dict, seed: int) -> dict:
             subs = [s for s in subs if [s[0], s[1]] == list(sc["only"]) or (s[0] == "none" and sc.get("with_base", True))]
         for i, (kind, k, s) in enumerate(subs):
             detail = rng.choice(harness.DETAILS)
-            mode = rng.choice(["file", "file", "dir", "dir", "cwd"])
+            mode = rng.choice(["file", "file", "dir", "dir", "cwd", "dotdir"])
             rr = harness.run_scenario(s, w, trace_mode=mode, detail=detail, name=f"t{i}")
             oc = rr["outcome"]
             stats["subruns"] = stats.get("subruns", 0) + 1
@@ -109,7 +109,7 @@ def execute(sc: dict, seed: int) -> dict:
                         stats["probe.construction_error"] = stats.get("probe.construction_error", 0) + 1
                     if f.get("base_exception"):
                         stats["probe.abort_class_failure"] = stats.get("probe.abort_class_failure", 0) + 1
-            if mode in ("dir", "cwd"):
+            if mode in ("dir", "cwd", "dotdir"):
                 stats["probe.directory_mode"] = stats.get("probe.directory_mode", 0) + 1
             vs = oracles.check_c06(rr, w, kind)
             for v in vs:
